@@ -31,3 +31,6 @@ def run(repo, res, tier):
     for (fn, h), caught in sorted(parserules.handlers(an).items()):
         if any(x in h for x in ("ValueError", "Exception", "<bare>", "BaseException")):
             res.oblige("T2", f"{fn} except {h}", ok=(fn, f"except {h}") not in t2keys)
+    # the lexer's character step: total at the ends of the text, keeps every character that is not grammar white space
+    from .. import lexsim as _ls
+    _ls.rule_comment_kind(repo, res)
